@@ -78,3 +78,64 @@ def second_opinion(facts, goal, timeout_ms):
     if r == "sat":
         return "refuted", "cvc5", dt
     return "unknown", "", dt
+
+
+# ---------------------------------------------------------------------------------------------------
+# arithmetic pre-pass: obligations about lengths and integers only
+
+def _pure_arith(t, cache):
+    """True if t mentions sequences only through Length(x) -- such facts survive replacing every Length(x) by an
+    integer variable"""
+    key = t.get_id()
+    if key in cache:
+        return cache[key]
+    ok = True
+    if z3.is_quantifier(t):
+        ok = False
+    elif z3.is_app(t):
+        k = t.decl().kind()
+        if k == z3.Z3_OP_SEQ_LENGTH:
+            ok = True                      # whatever is inside becomes an opaque integer
+        else:
+            srt = t.sort()
+            if srt.kind() in (z3.Z3_SEQ_SORT, z3.Z3_ARRAY_SORT, z3.Z3_DATATYPE_SORT) :
+                ok = False
+            elif k == z3.Z3_OP_UNINTERPRETED and t.num_args() > 0:
+                ok = False
+            else:
+                for c in t.children():
+                    if not _pure_arith(c, cache):
+                        ok = False
+                        break
+    cache[key] = ok
+    return ok
+
+
+def _abstract(t, table):
+    if z3.is_app(t) and t.decl().kind() == z3.Z3_OP_SEQ_LENGTH:
+        key = t.get_id()
+        if key not in table:
+            v = z3.Int("len!%d" % len(table))
+            table[key] = (v, t)
+        return table[key][0]
+    if z3.is_app(t) and t.num_args() > 0:
+        return t.decl()(*[_abstract(c, table) for c in t.children()])
+    return t
+
+
+def arith_prepass(facts, goal, timeout_ms=2000):
+    """try to prove the goal from the purely arithmetic facts, with lengths abstracted to non-negative integers.
+    Sound: hypotheses are only dropped or weakened.  Returns True if proved."""
+    cache = {}
+    if not _pure_arith(goal, cache):
+        return False
+    table = {}
+    s = z3.Solver()
+    s.set("timeout", timeout_ms)
+    for f in facts:
+        if _pure_arith(f, cache):
+            s.add(_abstract(f, table))
+    s.add(z3.Not(_abstract(goal, table)))
+    for (v, _) in list(table.values()):
+        s.add(v >= 0)
+    return s.check() == z3.unsat
